@@ -276,6 +276,25 @@ def kv_models(src_codec, dst_codec, same_metric):
             return out
         return one(a[0])
 
+    # ---- plain get / put (rewrites of the cursor loops use them)
+    @reg(r"^heed::Database::<.*>::get::<")
+    def _(eng, st, callee, a, ty):
+        k = concrete_key(eng, a[2])
+        st.env["log"].append(("get", k))
+        v = st.env["kv"].get(k)
+        return one(mk_ok(mk_option(v) if v is not None else mk_option()))
+
+    @reg(r"^heed::Database::<.*>::put::<")
+    def _(eng, st, callee, a, ty):
+        k = concrete_key(eng, a[2])
+        st.env["kv"][k] = W.snap(eng, a[3])
+        st.env["log"].append(("put", k))
+        return one(mk_ok(unit()))
+
+    @reg(r"^RoaringBitmap::new$")
+    def _(eng, st, callee, a, ty):
+        return one(BV(0, M.U))
+
     @reg(r"^<ND as Distance>::new_header$")
     def _(eng, st, callee, a, ty):
         v = eng.deref(a[0])
@@ -299,12 +318,16 @@ class WrapOk:
 def database(dim, src_codec, with_items=True):
     stored = dim if src_codec == "f32" else words(dim)
     kv = {
-        (IDX, META, 0): Opaque("metadata", {"of": IDX}),
+        # the last build saw item 1 only: items 5 and u32::MAX are pending additions
+        (IDX, META, 0): Agg("Metadata", None, {0: BV(0, 32), 1: BV(1 << 1, M.U), 2: Opaque("roots"),
+                                               3: Opaque("str", {"s": "old metric"})}),
         (IDX, META, 1): Opaque("version", {"of": IDX}),
         (IDX, UPD, 5): Opaque("mark"),
+        (IDX, UPD, 0xFFFFFFFF): Opaque("mark"),
         (IDX, TREE, 0): tree_node(0),
         (IDX, TREE, 4): tree_node(4),
         (IDX, ITEM, 1): leaf_node(src_codec, stored, "D"),
+        (IDX, ITEM, 5): leaf_node(src_codec, stored, "D"),
         (IDX, ITEM, 0xFFFFFFFF): leaf_node(src_codec, stored, "D"),
         (IDX - 1, META, 0): Opaque("metadata", {"of": IDX - 1}),
         (IDX - 1, TREE, 0): tree_node("n0"),
